@@ -55,6 +55,7 @@ package errors
 //@ ghost attached int
 //@ ghost attachedLogger int
 //@ func errorsParse
+//@   modifies Dispenser.cursor, Dispenser.nesting, ErrorHandler.GenericErrorPage, MV:map[int]string, MD:map[int]string
 //@   requires c != nil
 //@   ensures result1 == nil ==> (result0 != nil && result0.Log != nil)
 //@ extern (*github.com/tmpim/casket/caskethttp/httpserver.Logger).Attach
@@ -65,7 +66,7 @@ package errors
 //@ ghost parsedLogger int
 //@ func setup
 //@   requires c != nil
-//@   modifies ghost:attached, ghost:attachedLogger, ghost:parsedLogger
+//@   modifies ghost:attached, ghost:attachedLogger, ghost:parsedLogger, Dispenser.cursor, Dispenser.nesting, ErrorHandler.GenericErrorPage, MV:map[int]string, MD:map[int]string
 //@   at call errorsParse do parsedLogger = result0.Log
 //@   ensures [logger_attached_on_success] result == nil ==> (attached == old(attached) + 1 && attachedLogger == parsedLogger)
 //@   ensures [nothing_attached_on_error] result != nil ==> attached == old(attached)
